@@ -1,6 +1,7 @@
 (* C12 model: pgmpy/estimators/PC.py (build_skeleton for orig/stable/parallel, skeleton_to_pdag),
    pgmpy/base/DAG.py PDAG.to_dag, CITests.independence_match over DAG.get_independencies — as
-   coded in /repo now (after fix d85fe02: rule 2 tests non-adjacency both ways).
+   coded in /repo now (after fix d85fe02: rule 2 tests non-adjacency both ways; after fix 6ec15dd: to_dag's
+   sink test counts a directed parent of an undirected neighbour as adjacent).
    Executable definitions only; no proofs here.
 
    Order parameters (Python set / dict / frozenset iteration, PYTHONHASHSEED):
@@ -217,9 +218,9 @@ Definition del_node (x : node) (A : list arc) : list arc :=
   filter (fun e => negb (Nat.eqb (fst e) x) && negb (Nat.eqb (snd e) x)) A.
 Definition add_arc (d : list arc) (e : arc) : list arc := if harc d (fst e) (snd e) then d else d ++ [e].
 
-(* the test of the sink-removal loop.  sym = false is the code (has_edge(Y, Z) only);
-   sym = true is the repaired test (Y, Z adjacent in either direction), used by the harness only to
-   diagnose the known finding *)
+(* the test of the sink-removal loop.  sym = true is the code now (fix 6ec15dd: every undirected neighbour Y
+   of X must be adjacent, in either direction, to every other predecessor Z of X); sym = false is the test
+   before that fix (has_edge(Y, Z) only), kept for the regression witness in Finite.v *)
 Definition sinkok (sym : bool) (ns : list node) (A : list arc) (x : node) : bool :=
   forallb (fun y => negb (dchild A x y)) ns
   && (forallb (fun y => negb (unbr A x y)) ns
@@ -245,7 +246,8 @@ Fixpoint to_dag_loop (fuel : nat) (sym : bool) (ns : list node) (A dag : list ar
 
 Definition directed_arcs (A : list arc) : list arc := filter (fun e => negb (harc A (snd e) (fst e))) A.
 
-(* ns: pdag.copy().nodes() order; A: pdag.copy().edges() order (X - Y present as both arcs) *)
+(* ns: pdag.copy().nodes() order; A: pdag.copy().edges() order (X - Y present as both arcs).
+   PDAG.to_dag() is [to_dag true]. *)
 Definition to_dag (sym : bool) (ns : list node) (A : list arc) : option (list arc * bool) :=
   to_dag_loop (S (length ns)) sym ns A (fold_left add_arc (directed_arcs A) []).
 
@@ -267,5 +269,5 @@ Definition pc_dag (vr : variant) (indep : node -> node -> list node -> bool) (ma
     (vars sord pord : list node) : option (list arc * bool) :=
   match pc_pdag vr indep maxc vars sord with
   | None => None
-  | Some A => to_dag false (arc_nodes pord A) (canon_arcs pord A)
+  | Some A => to_dag true (arc_nodes pord A) (canon_arcs pord A)
   end.
